@@ -35,12 +35,33 @@ def read_seq(func, buf='buf'):
     return out
 
 
+def _read_size(func, expr):
+    """k when expr is self.read(k) with constant k, directly or through a local assigned once from it."""
+    if isinstance(expr, ast.Name):
+        defs = [d for d in walk_no_nested(func) if isinstance(d, (ast.Assign, ast.AnnAssign)) and any(isinstance(t, ast.Name) and t.id == expr.id for t in (d.targets if isinstance(d, ast.Assign) else [d.target]))]
+        if len(defs) != 1 or defs[0].value is None:
+            return None
+        expr = defs[0].value
+    if isinstance(expr, ast.Call) and unparse(expr.func) == 'self.read' and expr.args and isinstance(expr.args[0], ast.Constant) and isinstance(expr.args[0].value, int):
+        return expr.args[0].value
+    return None
+
+
 def fmt_of(func, which='unpack'):
     """Constant struct formats used in a function: [(format, call node)]"""
     out = []
     for n in walk_no_nested(func):
         if isinstance(n, ast.Call) and unparse(n.func) in ('struct.unpack', 'struct.pack') and n.args and isinstance(n.args[0], ast.Constant):
             out.append((n.args[0].value, n))
+        # int.from_bytes(self.read(k), 'big') / x.to_bytes(k, 'big'): the same codec as the unsigned big-endian struct format of k bytes
+        elif isinstance(n, ast.Call) and unparse(n.func) == 'int.from_bytes' and len(n.args) >= 2 and isinstance(n.args[1], ast.Constant) and n.args[1].value == 'big' \
+                and not any(k.arg == 'signed' and not (isinstance(k.value, ast.Constant) and k.value.value is False) for k in n.keywords) \
+                and _read_size(func, n.args[0]) is not None:
+            k = _read_size(func, n.args[0])
+            out.append(({1: 'B', 2: '>H', 4: '>I', 8: '>Q'}.get(k, 'from_bytes(%s)' % k), n))
+        elif isinstance(n, ast.Call) and isinstance(n.func, ast.Attribute) and n.func.attr == 'to_bytes' and len(n.args) >= 2 and isinstance(n.args[0], ast.Constant) and isinstance(n.args[1], ast.Constant) and n.args[1].value == 'big' \
+                and not any(k.arg == 'signed' and not (isinstance(k.value, ast.Constant) and k.value.value is False) for k in n.keywords):
+            out.append(({1: 'B', 2: '>H', 4: '>I', 8: '>Q'}.get(n.args[0].value, 'to_bytes(%s)' % n.args[0].value), n))
     return out
 
 
